@@ -479,3 +479,9 @@ K('C15', 'invert-sorted-by-name', [(DOM, "        return [a for a in self.attrs 
 T('C15', 'histogram-by-count-and-range', [(DS, "        bins = [range(n+1) for n in self.domain.shape]\n        ans = np.histogramdd(self.df.values, bins, weights=self.weights)[0]", "        shape = self.domain.shape\n        ans = np.histogramdd(self.df.values, bins=shape, range=[(0,n) for n in shape], weights=self.weights)[0]")])
 K('C15', 'histogram-by-count-no-range', [(DS, "        bins = [range(n+1) for n in self.domain.shape]\n        ans = np.histogramdd(self.df.values, bins, weights=self.weights)[0]", "        shape = self.domain.shape\n        ans = np.histogramdd(self.df.values, bins=shape, weights=self.weights)[0]")], 'histogram')
 T('C15', 'project-frame-unsliced', [(DS, "        data = self.df.loc[:,cols]\n        domain = self.domain.project(cols)\n        return Dataset(data, domain, self.weights)", "        domain = self.domain.project(cols)\n        return Dataset(self.df, domain, self.weights)")])
+
+# ---- memo tables (near-miss round): key must determine the memoised value
+_LIP_OLD = "                    Q = aslinearoperator(Q)\n                    Q.dtype = np.dtype(Q.dtype)\n                    eig = eigsh(Q.H * Q, 1)[0][0]\n                    eigs[cl] += eig * n / p / noise**2\n"
+_LIP_NEW = "                    key = %s\n                    if key not in cache:\n                        Q = aslinearoperator(Q)\n                        Q.dtype = np.dtype(Q.dtype)\n                        cache[key] = eigsh(Q.H * Q, 1)[0][0]\n                    eigs[cl] += cache[key] * n / p / noise**2\n"
+T('C04', 'lipschitz-memo-by-matrix', [(INF, "        eigs = { cl : 0.0 for cl in self.model.cliques }\n", "        eigs = { cl : 0.0 for cl in self.model.cliques }\n        cache = { }\n"), (INF, _LIP_OLD, _LIP_NEW % 'id(Q)')])
+K('C04', 'lipschitz-memo-by-projection', [(INF, "        eigs = { cl : 0.0 for cl in self.model.cliques }\n", "        eigs = { cl : 0.0 for cl in self.model.cliques }\n        cache = { }\n"), (INF, _LIP_OLD, _LIP_NEW % 'tuple(proj)')], 'memo-key')
